@@ -350,7 +350,7 @@ def main():
     t0 = time.time()
     binpath = oas_binary()
     quick = a["tier"] == "quick"
-    n_dyn, per_shard, n_inst_dyn, n_inst_corpus = (1024, 16, 15, 40) if quick else (10240, 40, 50, 200)
+    n_dyn, per_shard, n_inst_dyn, n_inst_corpus = (2048, 16, 15, 60) if quick else (10240, 40, 50, 300)
     tasks = []
     chunks = 8 if quick else 16
     for i in range(chunks):
